@@ -257,7 +257,8 @@ def run(ctx):
     stored = any(isinstance(n, ast.Assign) and isinstance(n.targets[0], ast.Subscript) and
                  ((isinstance(n.targets[0].slice, ast.Attribute) and n.targets[0].slice.attr == 'DURATION') or
                   (isinstance(n.targets[0].slice, ast.Constant) and n.targets[0].slice.value == K_DUR)) and
-                 isinstance(n.value, ast.Name) and n.value.id in pm.params for n in walk_own(pm.node))
+                 isinstance(n.value, ast.Name) and (n.value.id in pm.params or (pm is roles.start and dur_ok and ('%s =' % n.value.id) in why))
+                 for n in walk_own(pm.node))
     cd.instance('metadata[DURATION] = the duration handed to the metadata step', pm.qualname, stored)
     if not stored:
         res.add(Finding('C18', 'C18.d', 'R-PROV', pm.file, pm.qualname, pm.node.lineno, 'duration store',
@@ -513,6 +514,9 @@ def incomplete_flag_clause(ctx, res, cc, prop, cid):
                 x.iter.func.attr == roles.extractor.name:
             c = x.iter
             src_ok = bool(c.args) and isinstance(c.args[0], ast.Name) and c.args[0].id == pm.params[0]
+            if not src_ok and c.args and pm is roles.start:
+                # the metadata step written in place in the scope: the recording is the scope's own (a local bound to the active field)
+                src_ok = _self_attr(expand_locals(pm.node, c.args[0])) == roles.active
             direct = any(k.arg == 'direct_access' and isinstance(k.value, ast.Constant) and k.value.value is True for k in c.keywords)
             coll = '__recorded_outputs__'
             x.iter = ast.Name(id=coll, ctx=ast.Load())
